@@ -2,26 +2,34 @@
 """usage: tools/package_mutant.py <prop> <k> "<detected_by text>" [...more detected_by]
 copies /tmp/mut_<prop>/MUTANTS/<k> into /verif/seeded/<prop>-<k>/ with a meta.json built from notes.md and confirm.log"""
 import sys, os, json, shutil
-prop, k = sys.argv[1], sys.argv[2]
+# round 2: tools/package_mutant.py C01r2 3 ...  takes /tmp/mut_C01r2/MUTANTS/3 and stores it as the next free seeded/C01-<n>
+wt, k = sys.argv[1], sys.argv[2]
 det = sys.argv[3:]
-src = "/tmp/mut_%s/MUTANTS/%s" % (prop, k)
-dst = "/verif/seeded/%s-%s" % (prop, k)
+prop = wt[:3]
+src = "/tmp/mut_%s/MUTANTS/%s" % (wt, k)
+if wt == prop:
+    dst = "/verif/seeded/%s-%s" % (prop, k)
+else:
+    n = 1
+    while os.path.exists("/verif/seeded/%s-%d" % (prop, n)):
+        n += 1
+    dst = "/verif/seeded/%s-%d" % (prop, n)
 os.makedirs(dst, exist_ok=True)
 for f in ("patch.diff", "demo.rs", "notes.md"):
     if os.path.exists(os.path.join(src, f)):
         shutil.copy(os.path.join(src, f), os.path.join(dst, f))
 notes = open(os.path.join(src, "notes.md")).read().splitlines() if os.path.exists(os.path.join(src, "notes.md")) else []
-conf = [l.strip() for l in open("/tmp/mut_%s/confirm.log" % prop) if l.startswith("%s/%s " % (prop, k))]
+conf = [l.strip() for l in open("/tmp/mut_%s/confirm.log" % wt) if l.startswith("%s/%s " % (wt, k))]
 assert conf and "demo_clean_rc=0" in conf[0] and "suite_failed=0" in conf[0] and "demo_mutant_rc=0" not in conf[0], conf
 meta = {
     "property": prop,
     "source": "independent sub-agent given only the property text and a scratch worktree",
     "needs_to_manifest": notes[:14],
     "confirmed_by_me": {
-        "command": "tools/confirm_mutant.sh %s (demo on clean tree, demo with patch, cargo test --workspace --offline with patch)" % prop,
+        "command": "tools/confirm_mutant.sh %s (demo on clean tree, demo with patch, cargo test --workspace --offline with patch)" % wt,
         "result": conf[0],
     },
-    "checks_run": "tools/try_mutant.sh seeded/%s-%s/patch.diff <checks>" % (prop, k),
+    "checks_run": "tools/try_mutant.sh %s/patch.diff <checks>" % dst,
     "detected_by": det,
 }
 json.dump(meta, open(os.path.join(dst, "meta.json"), "w"), indent=1)
